@@ -7,6 +7,7 @@ use vrt::kernel::TaskIds;
 pub async fn run(seed: u64) -> serde_json::Value {
     let st = hosts::new_state(seed);
     hosts::start_all(&st);
+    crate::world::write_config(&json!({}));
     vrt::procs::add_proc(vrt::procs::Proc { pid: 1001, tid: 1001, uid: 0, gid: 0, exe: Some("/usr/bin/curl".into()), cmd: vec!["curl".into(), "http://169.254.169.254/".into()] });
     let shared = azure_proxy_agent::shared_state::SharedState::start_all();
     azure_proxy_agent::service::start_service(shared.clone()).await;
